@@ -68,7 +68,7 @@ static void oneshot(const unsigned char *s, size_t p, int flags, int depth, stru
 
 static int same(const struct res *a, const struct res *b) { return a->err == b->err && a->end == b->end && a->dh == b->dh && a->nonnull == b->nonnull; }
 
-struct stats { unsigned long calls, parts, vac, mism, bcont, strlen_last; int nwit; };
+struct stats { unsigned long calls, parts, vac, mism, bcont, strlen_last, null_empty; int nwit; };
 
 /* one-shot results are computed on demand for long inputs (a fresh parser on every prefix is quadratic) */
 static unsigned char *os_have; static unsigned long os_lazy_calls;
@@ -91,6 +91,8 @@ static void check_partition(const unsigned char *s, size_t n, int flags, struct 
 		memcpy(buf, s + prev, len);
 		/* when the input ends in a NUL and the last piece holds no other one, every other partition hands that piece over as a C string (len = -1): the documented
 		 * alternative way of saying the same thing, also in the middle of a document */
+		/* an empty piece may come as (NULL, 0) -- a caller that has nothing to hand over has no buffer either */
+		if (len == 0 && (st->parts & 2)) { free(buf); buf = NULL; st->null_empty++; }
 		if (j == nc - 1 && len > 0 && cuts[j] == n && s[n - 1] == 0 && !memchr(s + prev, 0, len - 1) && (st->parts & 1)) { o = json_tokener_parse_ex(tok, buf, -1); st->strlen_last++; }
 		else o = json_tokener_parse_ex(tok, buf, (int)len);
 		take(tok, o, len, &r);
@@ -158,7 +160,7 @@ static void cmd_split(int nt, char **t)
 	}
 	{
 		char head[200];
-		snprintf(head, sizeof head, " n=%zu calls=%lu parts=%lu vac=%lu bcont=%lu strlenlast=%lu mism=%lu tri=%ld live=%ld", n, st.calls, st.parts, st.vac, st.bcont, st.strlen_last, st.mism, n_tri_viol, vf_live_blocks - base_live);
+		snprintf(head, sizeof head, " n=%zu calls=%lu parts=%lu vac=%lu bcont=%lu strlenlast=%lu nullempty=%lu mism=%lu tri=%ld live=%ld", n, st.calls, st.parts, st.vac, st.bcont, st.strlen_last, st.null_empty, st.mism, n_tri_viol, vf_live_blocks - base_live);
 		/* prepend the head after "=" : simplest is to append; the reader parses key=value pairs anywhere */
 		ob_puts(&out, head);
 		if (n_tri_viol) { ob_printf(&out, " | trichotomy %s", tri_msg); }
